@@ -47,6 +47,8 @@ def gen_block_body(rnd, level, bname, is_root, allow_super, depth=0):
         body.append(("out", ("loopidx",)))
     if allow_super and rnd.random() < 0.6:
         body.append(("super",))
+    if allow_super and level >= 2 and rnd.random() < 0.35:
+        body.append(("supersuper",))
     if rnd.random() < 0.3:
         body.append(("set", rnd.choice(["x", "y"]), ("c", level * 10 + 1)))
         body.append(_obs(rnd))
@@ -95,6 +97,10 @@ def gen_root(rnd, level, defined):
         stmts.append(("text", "|"))
     if rnd.random() < 0.4:
         stmts.append(("selfblock", rnd.choice(names)))
+    if rnd.random() < 0.3:
+        plain = [n for n in names if n not in LOOPED]
+        if plain:
+            stmts.append(("selfsuper", rnd.choice(plain)))
     stmts.append(_obs(rnd))
     stmts.append(("text", ">"))
     return stmts
